@@ -51,7 +51,7 @@ def sel_table(case, ctx):
     import cooler
     path = _make(case, ctx)
     c = cooler.Cooler(path)
-    base = {"chroms": c.chroms, "bins": c.bins, "pixels": c.pixels}[case["which"]]()
+    base = c.pixels(join=True) if case.get("joined") else {"chroms": c.chroms, "bins": c.bins, "pixels": c.pixels}[case["which"]]()
     out = []
     for q in case["qs"]:
         item = {"s": q["s"], "colidx": q["colidx"], "colnames": q["colnames"], "err": ""}
